@@ -6,13 +6,19 @@ import c02
 
 CONFIGS = ['prod']
 EXPLANATION = (
-    'Decided clauses: M1 (contradiction rule) in the node\'s membership watcher, nodes in difference(previous, current) are by '
+    'SEM (abstract interpretation of the MIR, no code runs): the node\'s membership watcher, found by role, is interpreted over a scripted history of six '
+    'snapshots (joins, a leave, an address change, an unchanged snapshot, everybody leaving, a rejoin under another address) and each published delta must be '
+    'exactly joined = current - previous, left = previous - current as (id, address) pairs, departed nodes with the address they had; each membership consumer '
+    'of the store (the coroutine owning the receiving end of a channel whose message carries the delta) is interpreted over seven rounds of queued deltas and '
+    'the peers reachable from the arguments of the asynchronous workers it calls must be exactly the set the history prescribes. These summaries subsume M1 and '
+    'the per-consumer part of M3; the clauses below remain as the fallback when a construct is outside the interpreter\'s vocabulary. '
+    'Structural clauses: M1 (contradiction rule) in the node\'s membership watcher, nodes in difference(previous, current) are by '
     'construction absent from the current snapshot, so the entry pushed to `left` must be looked up in state carried over from the previous '
     'iteration, never in the current snapshot (and symmetrically `joined` in the current one); the carried set is replaced only after both differences were '
     'computed and the change published, and the carried snapshot is refreshed together with it; M2 a delta type (joined/left lists) must not travel on a latest-value-only channel (tokio watch), on which a slow or late '
     'subscriber loses intermediate deltas; M3 the two consumers apply `left` only to removals and `joined` only to insertions of their '
     'live-member maps, on every path of the membership arm, and the forwarder hands every event to both consumers; M4 a consumer\'s live-member map is changed by nothing else (no other insert / remove / '
-    'clear / retain / reassignment inside the service loop). '
+    'clear / retain / reassignment inside the service loop; with SEM: the MIR locals handed to the workers are mutated only inside the arm handling the membership message). '
     'NOT decided: chitchat\'s own failure detection; timing.')
 ASSUMPTIONS = ['chitchat publishes complete membership snapshots']
 
@@ -478,7 +484,11 @@ def check(ctx):
     if DELTA not in facts.adts:
         ctx.bad('C16.M1', 'delta-type', '', 'MembershipChange ADT not found (fail closed)')
         return
-    check_M1(ctx, facts)
+    # SEM: the node's membership watcher interpreted over a scripted history of snapshots (watcher_abs): the published deltas are
+    # exactly the differences between consecutive snapshots; subsumes M1, which is evaluated only when a construct is not modelled
+    import watcher_abs
+    if not watcher_abs.check_watcher(ctx, facts, 'C16.SEM'):
+        check_M1(ctx, facts)
     check_M2(ctx, facts)
     # SEM: each consumer's service loop interpreted over a scripted membership history (consumer_abs); subsumes the per-consumer
     # clauses of M3 and M4, which are evaluated only when a construct is not modelled
